@@ -77,7 +77,7 @@ def _datas(tier, seed):
     for shp in shapes:
         for X in fam.generic_list(shp[0], shp[1], seed, 3 if tier == "quick" else 12):
             out.append(("G%dx%d" % shp, X))
-    step = 211 if tier == "quick" else 7
+    step = 211 if tier == "quick" else 23
     for i, X in enumerate(fam.lattice(3, 3, [0, 1, 2])):
         if i % step == 3:
             out.append(("L3x3", X))
